@@ -310,10 +310,9 @@ fn exchange_primitives(rep: &mut Report) {
                             rep.count("crossover_segment:reversed-range-not-judged");
                             continue;
                         }
-                        if start == end && end > min {
-                            rep.count("crossover_segment:empty-out-of-bounds-not-judged");
-                            continue;
-                        }
+                        // an empty range that lies beyond the end of either genome (7..7 on five
+                        // genes) addresses a position outside it: judged like any other
+                        // out-of-range segment (must be an error, nothing touched)
                         let in_range = end <= min;
                         let ok = match &r {
                             Err(_) => false,
@@ -373,7 +372,7 @@ pub fn run(args: &Args) -> i32 {
         "TwoPointXo / UniformXo x {[Vec;2], (Vec,Vec), [Bitstring;2], (Bitstring,Bitstring)} x lengths {0..8, 64} with tagged / complementary parents and the stated number of draws (segment and mask coverage for lengths <= 6); all ordered pairs of different lengths 0..5 on all eight flavours; crossover_gene / crossover_segment for every index 0..len+2, usize::MAX and every range start,end in 0..len+2 on genomes of length 0..4 (equal and different lengths). distinct_nontrivial = distinct configurations / argument tuples",
         false,
         &[
-            "reversed ranges (start > end) and empty ranges beyond the shorter genome are exercised but not judged (the statement does not speak about them)",
+            "reversed ranges (start > end) are exercised but not judged (the statement does not speak about them); an empty range beyond the end of either genome is addressed outside it and must be an error",
             "segment coverage needs >= 2e4 draws for <= 22 segments: a correct sampler misses one with probability < 1e-300",
         ],
     )
